@@ -129,4 +129,14 @@ P("compound-assign", """export function f(int a, float b) -> float { a += 2; a *
 P("matrix-cmp-rows", """export function f(float3x3 a) -> float3 { float3 r = a[0] + a[1]; return r * 2.0; }""",
   args=[dict(a=[[1.0, 2.0, 3.0], [4.0, 5.0, 6.0], [7.0, 8.0, 9.0]])], expect=[[10.0, 14.0, 18.0]])
 
+P("call-array-arg", """function pick(int[3] t, int i) -> int { return t[i]; }
+export function f(int i) -> int { int[3] t; t[1] = 5; t[2] = 7; return pick(t, i) + pick(t, 1); }""", args=[dict(i=2)], expect=[12])
+P("call-struct-arg", """struct S { int a; float b; }
+function geta(S s, int k) -> int { return s.a + k; }
+export function f(int x) -> int { S s; s.a = x; return geta(s, 1) + geta(s, 2); }""", args=[dict(x=4)], expect=[11])
+P("call-array-arg-write", """function bump(int[2] t, int i) -> int { t[i] = t[i] + 1; return t[i]; }
+export function f(int i, int[2] arr) -> int { return bump(arr, i) + arr[i]; }""", args=[dict(i=1, arr=[1, 2])], expect=[6])
+P("call-mixed-args", """function mix(float2 v, int[2] t, float s) -> float { return v[0] * s + t[1]; }
+export function f(float2 v, float s) -> float { int[2] t; t[1] = 3; return mix(v, t, s); }""", args=[dict(v=[1.0, 2.0], s=2.0)], expect=[5.0])
+
 PROGRAMS = [(e["name"], e["src"]) for e in ENTRIES]
